@@ -25,6 +25,13 @@
 //!          7 set_debug, 8 set_fuel, 9 set_recursion_limit, 10 set_loader, 11 set_path_join_callback, 12 add_filter,
 //!          13 add_function, 14 add_test, 15 add_global, 16 set_unknown_method_callback, 17 add_template_owned (another template),
 //!          18 clear_templates, 19 remove_filter/remove_global.  Output: 5 R R   (both renderings, R as in mode 0)
+//!   mode 4 (source routes / re-add histories): 4 0 D1..D8 <src> <alt> nops (op a b){nops}   on ONE fresh Environment:
+//!          op 0 = setter a (0 set_syntax, 1 trim_blocks, 2 lstrip_blocks, 3 keep_trailing_newline) with value b;
+//!          op 1 = render the source (b = 0: src, 1: alt) through route a: 0 render_str, 1 render_named_str, 2 template_from_str,
+//!                 3 template_from_named_str, 4 add_template_owned + get_template (fresh name), 5 add_template (borrowed) + get_template,
+//!                 6 set_loader(closure) + get_template, 7 path_loader on a file written to a temporary directory + get_template;
+//!          op 2 = add template "t" (a = 0 add_template_owned, 1 add_template) with source b; op 3 = render "t";
+//!          op 4 = remove_template("t"); op 5 = clear_templates.   Output: 6 n R{n}  (one R per op 1 / op 3)
 //! Output: [2] on panic, [1 22] when the delimiter configuration is rejected, otherwise
 //!   mode 0:  R T      mode 1:  3 T
 //!   R = 0 <str rendered> | 1 errcode
@@ -319,6 +326,89 @@ fn setter_order(c: &mut Cur, d: &[String]) -> Vec<String> {
     out
 }
 
+/// mode 4: one environment, the source through every route, templates re-added after reconfiguration
+fn routes(c: &mut Cur, d: &[String]) -> Vec<String> {
+    let src: &'static str = Box::leak(c.str().into_boxed_str());
+    let alt: &'static str = Box::leak(c.str().into_boxed_str());
+    let nops = c.usize();
+    let ops: Vec<(i64, i64, i64)> = (0..nops).map(|_| (c.i64(), c.i64(), c.i64())).collect();
+    let custom = match build_syntax(d) {
+        Ok(s) => s,
+        Err(code) => return vec!["1".into(), code.to_string()],
+    };
+    let dir = std::path::PathBuf::from(std::env::var("MJVERIF_TMP").unwrap_or_else(|_| "/tmp".into()))
+        .join(format!("c10-routes-{}", std::process::id()));
+    let mut env: Environment<'static> = Environment::new();
+    let mut outs: Vec<Vec<String>> = vec![];
+    let mut fresh = 0usize;
+    for (op, a, b) in ops {
+        let which = if b == 1 { alt } else { src };
+        match op {
+            0 => match a {
+                0 => env.set_syntax(if b == 1 { custom.clone() } else { SyntaxConfig::default() }),
+                1 => env.set_trim_blocks(b == 1),
+                2 => env.set_lstrip_blocks(b == 1),
+                _ => env.set_keep_trailing_newline(b == 1),
+            },
+            1 => {
+                fresh += 1;
+                let name = format!("route-{}.txt", fresh);
+                let r = match a {
+                    0 => env.render_str(which, ()),
+                    1 => env.render_named_str(&name, which, ()),
+                    2 => env.template_from_str(which).and_then(|t| t.render(())),
+                    3 => env.template_from_named_str(&name, which).and_then(|t| t.render(())),
+                    4 => env
+                        .add_template_owned(name.clone(), which.to_string())
+                        .and_then(|_| env.get_template(&name))
+                        .and_then(|t| t.render(())),
+                    5 => {
+                        let n: &'static str = Box::leak(name.clone().into_boxed_str());
+                        env.add_template(n, which).and_then(|_| env.get_template(n)).and_then(|t| t.render(()))
+                    }
+                    6 => {
+                        let owned = which.to_string();
+                        let wanted = name.clone();
+                        env.set_loader(move |n| Ok(if n == wanted { Some(owned.clone()) } else { None }));
+                        env.get_template(&name).and_then(|t| t.render(()))
+                    }
+                    _ => {
+                        let _ = std::fs::create_dir_all(&dir);
+                        let _ = std::fs::write(dir.join(&name), which.as_bytes());
+                        env.set_loader(minijinja::path_loader(&dir));
+                        let r = env.get_template(&name).and_then(|t| t.render(()));
+                        let _ = std::fs::remove_file(dir.join(&name));
+                        r
+                    }
+                };
+                let mut o = vec![];
+                render_part(&mut o, r);
+                outs.push(o);
+            }
+            2 => {
+                let r = if a == 1 { env.add_template("t", which) } else { env.add_template_owned("t", which.to_string()) };
+                if let Err(e) = r {
+                    // a failing add shows up in the next rendering of "t"
+                    let _ = e;
+                }
+            }
+            3 => {
+                let mut o = vec![];
+                render_part(&mut o, env.get_template("t").and_then(|t| t.render(())));
+                outs.push(o);
+            }
+            4 => env.remove_template("t"),
+            _ => env.clear_templates(),
+        }
+    }
+    let _ = std::fs::remove_dir(&dir);
+    let mut out = vec!["6".to_string(), outs.len().to_string()];
+    for o in outs {
+        out.extend(o);
+    }
+    out
+}
+
 fn main() {
     // one environment for the whole run (every setting is overwritten per case); built syntax
     // configurations are cached per delimiter set (modes 0 and 1)
@@ -333,6 +423,9 @@ fn main() {
         let d: Vec<String> = (0..8).map(|_| c.str()).collect();
         if mode == 3 {
             return setter_order(c, &d);
+        }
+        if mode == 4 {
+            return routes(c, &d);
         }
         let src = if mode == 1 { c.str() } else { build_source(c, &d) };
         let built = cache.entry(d.clone()).or_insert_with(|| build_syntax(&d));
